@@ -32,9 +32,25 @@ def findings():
             sig = f.get("sig") or (f.get("sig_prefix", "") + "*")
             rows.append(f"| {f['property']} | {f['site']} [{sig}] | {' '.join(f['what'].replace('|','/').split())[:300]} |")
     return "\n".join(rows)
+def status():
+    exp = json.load(open(os.path.join(ROOT, "lean", "expected_theorems.json")))
+    man = json.load(open(os.path.join(ROOT, "MANIFEST.json")))
+    claimed = {c["property_id"]: c for c in man["checks"]}
+    rows = ["| property | claimed | pinned theorems | last quick run in /verif: correspondence cases / predicate evaluations / known findings / wall s |", "|---|---|---|---|"]
+    for l in open(os.path.join(ROOT, "properties.jsonl")):
+        pid = json.loads(l)["id"]
+        ev = {}
+        try: ev = json.load(open(os.path.join(ROOT, "evidence", pid + ".json")))
+        except Exception: pass
+        cov = ev.get("coverage", {})
+        c = claimed.get(pid)
+        lvl = "no" if not c else ("PARTIAL" if c["level_claimed"]["text"].startswith("PARTIAL") else "yes")
+        run = f"{cov.get('traces_validated_against_impl','-')} / {cov.get('evaluations','-')} / {len(cov.get('known_findings_reproduced',[])) if cov else '-'} / {ev.get('wall_s','-')}" if ev else "-"
+        rows.append(f"| {pid} | {lvl} | {len(exp.get(pid, []))} | {run} |")
+    return "\n".join(rows)
 p = os.path.join(ROOT, "DESIGN.md")
 s = open(p).read()
-for name, fn in (("SEEDED", seeded), ("FIXES", fixes), ("FINDINGS", findings)):
+for name, fn in (("SEEDED", seeded), ("FIXES", fixes), ("FINDINGS", findings), ("STATUS", status)):
     b, e = f"<!-- BEGIN {name} -->", f"<!-- END {name} -->"
     if b in s:
         s = s[:s.index(b) + len(b)] + "\n" + fn() + "\n" + s[s.index(e):]
